@@ -3,13 +3,92 @@
 package checks
 
 import (
+	"fmt"
 	"math/rand"
+	"os"
+	"path/filepath"
+	"sync"
 
 	"verif/model"
+	"verif/tree"
 )
 
-func isoViews(w *model.World, virtual int, rel string) (model.View, bool, bool) {
-	return nil, false, false
+type isoViewEntry struct {
+	v    model.View
+	fail bool
+	ok   bool
 }
 
-func isoObjects(e *Env, root string, r *rand.Rand) []c02Obj { return nil }
+var (
+	isoViewMu    sync.Mutex
+	isoViewCache = map[string]isoViewEntry{}
+)
+
+// isoViews gives the expected bytes of a generated image: the canonical image is one sequential
+// read of a library object of the same directory (its content and structure are C07/C08's
+// business); the fields two opens may differ in (C18's mask) are don't-care.
+func isoViews(w *model.World, virtual int, rel string) (model.View, bool, bool) {
+	ps3 := virtual == model.VirtPS3
+	key := fmt.Sprintf("%s|%s|%v", w.Root, rel, ps3)
+	isoViewMu.Lock()
+	if e, ok := isoViewCache[key]; ok {
+		isoViewMu.Unlock()
+		return e.v, e.fail, e.ok
+	}
+	isoViewMu.Unlock()
+	e := func() isoViewEntry {
+		st, err := os.Stat(filepath.Join(w.Root, rel))
+		if err != nil || !st.IsDir() {
+			return isoViewEntry{fail: true, ok: true} // not an existing directory: the open must fail
+		}
+		if ps3 {
+			if _, err := os.Stat(filepath.Join(w.Root, rel, "PS3_GAME", "PARAM.SFO")); err != nil {
+				return isoViewEntry{fail: true, ok: true} // PS3 image needs the game's PARAM.SFO
+			}
+			if id := readTitleID(filepath.Join(w.Root, rel)); len(id) != 9 {
+				return isoViewEntry{} // unusual TITLE_ID: not judged
+			}
+		}
+		v, _, err, perr := libOpenImage(w.Root, rel, ps3, 0)
+		if err != nil || perr != nil {
+			return isoViewEntry{} // creation trouble is judged by C04/C07/C08, not here
+		}
+		defer v.Close()
+		fi, _ := v.Stat()
+		if fi.Size() > 256<<20 {
+			return isoViewEntry{}
+		}
+		img, err, perr := readAllSeq(v, 65536, fi.Size()+1<<20)
+		if err != nil || perr != nil || int64(len(img)) != fi.Size() {
+			return isoViewEntry{}
+		}
+		return isoViewEntry{v: &model.BytesView{B: img, K: "generated-image", MFree: true, DC: imageDontCare(ps3)}, ok: true}
+	}()
+	isoViewMu.Lock()
+	isoViewCache[key] = e
+	isoViewMu.Unlock()
+	return e.v, e.fail, e.ok
+}
+
+// isoObjects creates a few source trees below root/isotrees and returns the image objects.
+func isoObjects(e *Env, root string, r *rand.Rand) []c02Obj {
+	var objs []c02Obj
+	parent := filepath.Join(root, "isotrees")
+	must(os.MkdirAll(parent, 0o755))
+	w := &model.World{Root: root}
+	for i := 0; i < e.Pick(4, 30); i++ {
+		ps3 := i%2 == 1
+		name := fmt.Sprintf("t%02d", i)
+		genISOTree(r, parent, name, tree.GenOpt{MaxDepth: 2, MaxEntries: 6, MaxSize: 150000, NameLen: 10, EmptyFiles: true}, ps3)
+		pre, virt := "/***DVD***", model.VirtDVD
+		if ps3 {
+			pre, virt = "/***PS3***", model.VirtPS3
+		}
+		v, _, ok := isoViews(w, virt, "/isotrees/"+name)
+		if !ok || v == nil {
+			continue // creation trouble: reported by the image checks
+		}
+		objs = append(objs, c02Obj{pre + "/isotrees/" + name, v.Size(), "generated-image"})
+	}
+	return objs
+}
